@@ -683,8 +683,8 @@ def stream_cap(ctx, S, rng, ncases, cov):
         elif info["iterations"] - 1 != cnt[0]:
             bad = {"kind": "iteration-count-mismatch", "detail": f"{cnt[0]} products but info['iterations'] - 1 = {info['iterations'] - 1}"}
         elif cnt[0] > p["max_iters"]:
-            if p["max_iters"] == 0 and cnt[0] == 1:
-                common.known_finding(ctx, "capPositive", PROVISIONAL_KNOWN["capPositive"]["what"])
+            if p["max_iters"] == 0 and cnt[0] == 1 and "capPositive" in common.known_clauses(ctx.prop):
+                common.known_finding(ctx, "capPositive", common.known_clauses(ctx.prop)["capPositive"]["what"])
                 cov["cap_zero_cases"] += 1
             else:
                 bad = {"kind": "iterations-exceed-max_iters", "detail": f"{cnt[0]} products with A, max_iters = {p['max_iters']}"}
